@@ -4953,7 +4953,8 @@ py_statements = [
         name="py_descr_native_*_list",
         setter_helper="get_from_object_{c_type}_list",
         setter=[
-            "{PY_typedef_converter} cvalue;",
+            "{PY_typedef_converter} cvalue = {PY_value_init};",
+            "cvalue.name = \"{field_name}\";",
             "Py_XDECREF({c_var_obj});",
             "if ({hnamefunc0}({py_var}, &cvalue) == 0) {{+",
             "{c_var} = {nullptr};",
@@ -4981,7 +4982,8 @@ py_statements = [
         name="py_descr_char_*",
         setter_helper="get_from_object_{c_type}_list",
         setter=[
-            "{PY_typedef_converter} cvalue;",
+            "{PY_typedef_converter} cvalue = {PY_value_init};",
+            "cvalue.name = \"{field_name}\";",
             "Py_XDECREF({c_var_data});",
             "if ({hnamefunc0}({py_var}, &cvalue) == 0) {{+",
             "{c_var} = {nullptr};",
@@ -5011,7 +5013,8 @@ py_statements = [
         name="py_descr_char_**_list",
         setter_helper="get_from_object_charptr",
         setter=[
-            "{PY_typedef_converter} cvalue;",
+            "{PY_typedef_converter} cvalue = {PY_value_init};",
+            "cvalue.name = \"{field_name}\";",
             "Py_XDECREF({c_var_data});",
             "if ({hnamefunc0}({py_var}, &cvalue) == 0) {{+",
             "{c_var} = {nullptr};",
@@ -5083,7 +5086,8 @@ py_statements = [
         need_numpy = True,
         setter_helper="get_from_object_{c_type}_numpy",
         setter=[
-            "{PY_typedef_converter} cvalue;",
+            "{PY_typedef_converter} cvalue = {PY_value_init};",
+            "cvalue.name = \"{field_name}\";",
             "Py_XDECREF({c_var_obj});",
             "if ({hnamefunc0}({py_var}, &cvalue) == 0) {{+",
             "{c_var} = {nullptr};",
